@@ -113,6 +113,9 @@ func (e *env) violation(c *cell, o observation, key, what string, extra map[stri
 		// Histories across clients that share the servers' Disposer.
 		key = c.phase + ":" + key
 		what += " (response built from a pooled clone of a stored message; the servers dispose of written responses into the same Cloner)"
+	case phaseSilent:
+		key = c.phase + ":" + key
+		what += " (the handler finished without writing, returning " + c.sh.NoWrite + "; the response is the server's own)"
 	case phaseECS:
 		served := "unknown"
 		if o.hrec != nil {
@@ -204,6 +207,9 @@ func (e *env) judge(c *cell, o observation) {
 			what = "no-response: keep-alive option in a DoQ query is a protocol error (RFC 9250); " + strings.TrimPrefix(what, "no-response: ")
 		}
 		r.Bucket("no_response:"+fam+":"+rel+":"+what, 1)
+		if c.phase == phaseSilent {
+			r.Bucket("silent_handler:"+c.sh.NoWrite+":no-response:"+fam, 1)
+		}
 		r.Eval(class+"|no-response", false)
 		if c.boundary != "" {
 			r.Bucket("boundary_cells_without_response", 1)
@@ -416,6 +422,17 @@ func (e *env) judge(c *cell, o observation) {
 			r.Bucket("ecs_cache:"+src+":datagram-client-advertising-less-than-4096-and-answer-larger-than-that", 1)
 		}
 		outcome = src + "-" + outcome
+	}
+
+	if c.phase == phaseSilent {
+		opt := "query-with-opt"
+		if !c.form.hasOPT() {
+			opt = "query-without-opt"
+		}
+		r.Bucket("silent_handler:"+c.sh.NoWrite+":answered:"+fam+":"+opt, 1)
+	}
+	if c.path.family == famUDP && c.path.cfg == 0 && c.form.Adv > 512 && full > 512 {
+		r.Bucket("udp_configured_max_0:advertised>512-and-answer>512:judged", 1)
 	}
 
 	r.Bucket("cells:"+c.path.name+":"+outcome, 1)
